@@ -811,7 +811,7 @@ CHECK = Check(
         "get_resource (static files of the debugger) is served without Host or secret check; the property does not list it among the gated endpoints",
         "PINs are abstracted to generations in the session model (a run-time change of app.pin increments the generation; a cookie carries the generation it was issued for); cookie expiry is not part of sessions",
         "multi-process sharing of the failure counter (multiprocessing.Value) and real sleeping are outside the model; the sequential model is complemented by (a) the structural obligation fail_counted_before_delay read off the AST of _fail_pin_auth / pin_auth and (b) stream pin-overlap, which exercises real threads: wrong attempts issued one after the other are each parked inside their penalty delay (time.sleep replaced by a threading.Event gate) while the right PIN is tried - oracle only, outside the model",
-        "_strip_port and host_is_trusted are regenerated from the source by tools/py2lean.py (Gen/PyFns_Host.lean) on every run and proved equal to the hand model for all inputs (Props/C20T; idna stays opaque); the CPython primitives the translated code calls (startswith, find, slicing, partition, endswith) are modelled in Util/PyPrelude.lean and validated by stream prelude-kernels",
+        "_strip_port, host_is_trusted and get_host are regenerated from the source by tools/py2lean.py (Gen/PyFns_Host.lean) on every run and proved equal to the hand model for all inputs (Props/C20T; idna stays opaque); the CPython primitives the translated code calls (startswith, find, slicing, partition, endswith) are modelled in Util/PyPrelude.lean and validated by stream prelude-kernels",
     ],
     trusted_extra=["CPython's idna codec (encodings.idna) - opaque in the model, also used by the host oracle"],
     quick_budget=4000,
